@@ -44,8 +44,24 @@ def run_case(world_pack, cfg, case, seed, pid=PID):
     sent_upto = 0
     mark = len(ra.spilog)
     airmark = len(w.airlog)
+    rets = None
     try:
-        if case["container"]:
+        if case["call"] == "burst":
+            # fill the TX FIFO with write(write_only=True), then start transmitting
+            rets, full_at_call = [], []
+            for x in bufs:
+                mark = len(ra.spilog)
+                full_at_call.append(len(ra.tx_fifo) >= 3)
+                rets.append(a.write(x, ask_no_ack=case["noack"], write_only=True))
+                sent_upto += 1
+            a.ce_pin = True
+            burst_got = []
+            for _ in range(400):
+                a.update()
+                burst_got += link.drain(b)
+                if not ra.tx_fifo and not ra.in_txn:
+                    break
+        elif case["container"]:
             cont = list(bufs) if case["container"] == "list" else tuple(bufs)
             a.send(cont, ask_no_ack=case["noack"])
             sent_upto = len(bufs)
@@ -76,6 +92,14 @@ def run_case(world_pack, cfg, case, seed, pid=PID):
             v("valueerror-leak", nbad, "ValueError raised but a payload reached the radio")
     w.advance(3 * link.MS)
     got = link.drain(b)
+    if rets is not None:
+        got = burst_got + got
+        for i, (r, full) in enumerate(zip(rets, full_at_call)):
+            if r is not True and r is not False:
+                v("write-return-type", lens[i], "write() returned %r" % (r,))
+            elif r is False and not full:
+                v("write-refused-with-room", lens[i], "write() #%d returned False although the TX FIFO had room" % (i + 1))
+        expect = [e for e, r in zip(expect, rets) if r]
     want_pipe = cfg["pipe"]
     n0 = lens[0]
     if len(got) != len(expect):
@@ -162,6 +186,27 @@ def w_lists(item, rep):
     _do_cases(cfg, cases, seed, rep, "lists", pid)
 
 
+def w_perpipe(item, rep):
+    cfgs, seed, pid = item
+    for cfg in cfgs:
+        pl = cfg["pl"]
+        cases = []
+        for n in sorted({0, 1, max(1, pl - 1), pl, min(40, pl + 1), 33}):
+            for buftype in ("bytes", "bytearray"):
+                cases.append(dict(lens=[n], buftype=buftype, call="send", container=None, noack=False))
+        _do_cases(cfg, cases, seed, rep, "perpipe", pid)
+
+
+def w_burst(item, rep):
+    cfg, seed, pid, lens3 = item
+    cases = []
+    for k in (1, 2, 3, 4, 5):
+        combos = itertools.product(lens3, repeat=k) if k <= 3 else [tuple(lens3[(i + j) % len(lens3)] for i in range(k)) for j in range(len(lens3))]
+        for combo in combos:
+            cases.append(dict(lens=list(combo), buftype="bytearray" if k % 2 else "bytes", call="burst", container=None, noack=False))
+    _do_cases(cfg, cases, seed, rep, "burst", pid)
+
+
 def items(tier, seed, tx_cls="full", rx_cls="full", pid=PID):
     lite = "lite" in (tx_cls, rx_cls)
     fa = "busio" if tx_cls == "lite" else "spidev"
@@ -198,11 +243,27 @@ def items(tier, seed, tx_cls="full", rx_cls="full", pid=PID):
         for pl in (1, 5, 32):
             lists.append((link.default_cfg(dyn=False, pl=pl, **base), seed, pid, (0, 5, 17, 32, 40)))
         lists.append((link.default_cfg(dyn=True, pl=32, **base), seed, pid, (1, 2, 31, 32, 33)))
-    return core, cross, lists
+    perpipe, burst = [], []
+    if rx_cls != "lite":  # per-pipe static lengths do not exist in the lite driver
+        vecs = [[5, 9, 13, 17, 21, 32], [32, 21, 17, 13, 9, 5], [1, 2, 3, 4, 6, 7], [32, 1, 32, 1, 31, 2]]
+        if tier == "thorough":
+            vecs += [[(seed * 7 + i * 11 + j * 5) % 32 + 1 for i in range(6)] for j in range(8)]
+        for vec in vecs:
+            group = []
+            for pipe in range(6):
+                group.append(link.default_cfg(pipe=pipe, dyn=False, pl=vec[pipe], pl_vec=list(vec), **base))
+            perpipe.append((group, seed, pid))
+    for dyn, pl in ((True, 32), (False, 8)):
+        burst.append((link.default_cfg(dyn=dyn, pl=pl, **base), seed, pid, (1, 8, 32)))
+    return core, cross, lists, perpipe, burst
 
 
 def run_link(tier, seed, rep, tx_cls="full", rx_cls="full", pid=PID, only=None):
-    core, cross, lists = items(tier, seed, tx_cls, rx_cls, pid)
+    core, cross, lists, perpipe, burst = items(tier, seed, tx_cls, rx_cls, pid)
+    if not only or "perpipe" in only:
+        pmap(w_perpipe, perpipe, rep)
+    if not only or "burst" in only:
+        pmap(w_burst, burst, rep)
     if not only or "core" in only:
         pmap(w_core, core, rep)
     if not only or "cross" in only:
@@ -210,7 +271,8 @@ def run_link(tier, seed, rep, tx_cls="full", rx_cls="full", pid=PID, only=None):
     if not only or "lists" in only:
         pmap(w_lists, lists, rep)
     rep.states += len(rep.nontrivial) + len(core) + len(lists) + sum(len(c[0]) for c in cross)
-    return dict(core_cfgs=len(core), cross_cfgs=sum(len(c[0]) for c in cross), list_cfgs=len(lists))
+    return dict(core_cfgs=len(core), cross_cfgs=sum(len(c[0]) for c in cross), list_cfgs=len(lists),
+                perpipe_cfgs=sum(len(c[0]) for c in perpipe), burst_cfgs=len(burst))
 
 
 def run(tier, seed, rep, only=None):
@@ -220,7 +282,8 @@ def run(tier, seed, rep, only=None):
         exhaustive=True,
         rule="E-ENUM: every (length mode dyn|static 1..32) x payload length 0..40 x bytes/bytearray x send|write+poll on a "
              "fresh copy of a configured RF24 pair; every pipe 0..5 x address width x data rate x CRC/auto-ack x ask_no_ack x "
-             "channel x SPI front at 3 lengths; every list/tuple/sequence of 1..3 payloads over 3 lengths. A case is "
+             "channel x SPI front at 3 lengths; every list/tuple/sequence of 1..3 payloads over 3 lengths; per-pipe static length vectors x pipe x boundary "
+             "lengths; bursts of 1..5 write(write_only=True) calls before CE is raised (peer must get exactly the accepted ones). A case is "
              "non-trivial when the peer received at least one payload or a ValueError was due; distinct = distinct "
              "(configuration, case). states = configured initial states + distinct non-trivial result cases; transitions = executions.",
         bounds=dict(lengths="0..40", static_lengths="1..32", list_depth=3, channels="0,76,125" if tier == "quick" else "0..125", **b),
